@@ -660,3 +660,77 @@ Proof.
   intros x k H. split; [apply conv_length; exact H|]. intros n Hn.
   rewrite nth_conv by assumption. apply coef_is_sum.
 Qed.
+
+(* ------------------------------------------------------------------ *)
+(* smooth = convolve with the window, 'both' trim                      *)
+(* ------------------------------------------------------------------ *)
+Theorem smooth_window : forall ts col pre s e post window, window <> [] -> length col = length ts ->
+  canonical (pre ++ (s, e) :: post) ->
+  slice (ss_left s ts) (ss_right e ts) (smooth_epochs ts col (pre ++ (s, e) :: post) window)
+  = conv_window TBoth window (slice (ss_left s ts) (ss_right e ts) col).
+Proof. intros. unfold smooth_epochs. apply convolve_epochs_window; assumption. Qed.
+
+Theorem smooth_independent : forall ts col col' pre s e post window, window <> [] ->
+  length col = length ts -> length col' = length ts -> canonical (pre ++ (s, e) :: post) ->
+  slice (ss_left s ts) (ss_right e ts) col = slice (ss_left s ts) (ss_right e ts) col' ->
+  slice (ss_left s ts) (ss_right e ts) (smooth_epochs ts col (pre ++ (s, e) :: post) window)
+  = slice (ss_left s ts) (ss_right e ts) (smooth_epochs ts col' (pre ++ (s, e) :: post) window).
+Proof. intros. unfold smooth_epochs. apply convolve_epochs_independent; assumption. Qed.
+
+Theorem smooth_linear_length : forall ts a b x y ep window, window <> [] -> length x = length ts -> length y = length ts ->
+  canonical ep ->
+  smooth_epochs ts (lin a b x y) ep window = lin a b (smooth_epochs ts x ep window) (smooth_epochs ts y ep window)
+  /\ length (smooth_epochs ts x ep window) = length ts.
+Proof.
+  intros. unfold smooth_epochs. split; [apply convolve_epochs_linear; [assumption|lia]|].
+  apply convolve_epochs_length; assumption.
+Qed.
+
+(* ------------------------------------------------------------------ *)
+(* whole-signal complementarity when the support holds every sample    *)
+(* ------------------------------------------------------------------ *)
+Lemma nth_in_window {A} (l : list A) d i0 i1 j : (i0 <= j < i1)%nat ->
+  nth j l d = nth (j - i0) (slice i0 i1 l) d.
+Proof. intros H. rewrite nth_slice by lia. f_equal. lia. Qed.
+
+Theorem sinc_complementary_whole : forall ts col ep u kern c, length kern = (2 * c + 1)%nat ->
+  sortedZ ts -> length col = length ts -> canonical ep -> Forall (fun t => mem t ep = true) ts ->
+  vadd (sinc_filter ts col ep kern) (sinc_filter ts col ep (spectral_inversion u kern)) = vscale u col.
+Proof.
+  intros ts col ep u kern c Hk Hs Hl Hc Hcov.
+  assert (kern <> []) as Hne by (destruct kern; [simpl in Hk; lia|congruence]).
+  assert (spectral_inversion u kern <> []) as Hne2.
+  { intros E. apply (f_equal (@length Z)) in E. rewrite spectral_inversion_length in E. simpl in E. lia. }
+  assert (length (sinc_filter ts col ep kern) = length ts) as L1 by (apply convolve_epochs_length; assumption).
+  assert (length (sinc_filter ts col ep (spectral_inversion u kern)) = length ts) as L2 by (apply convolve_epochs_length; assumption).
+  apply nth_ext with (d := 0) (d' := 0).
+  - rewrite vadd_length by lia. rewrite vscale_length. lia.
+  - intros j Hj. rewrite vadd_length in Hj by lia. rewrite L1 in Hj.
+    rewrite Forall_forall in Hcov. specialize (Hcov (nth j ts 0) (nth_In _ _ Hj)).
+    unfold mem in Hcov. apply existsb_exists in Hcov. destruct Hcov as ([s e] & Hin & Hb).
+    unfold inb in Hb. cbn [fst snd] in Hb.
+    destruct (in_split _ _ Hin) as (pre & post & ->).
+    assert (ss_left s ts <= j < ss_right e ts)%nat as Hw.
+    { split.
+      - destruct (Nat.le_gt_cases (ss_left s ts) j) as [H|H]; [exact H|].
+        apply (ss_left_nth s ts Hs j Hj) in H. lia.
+      - apply (ss_right_nth e ts Hs j Hj). lia. }
+    pose proof (sinc_complementary ts col pre s e post u kern c Hk Hl Hc) as E.
+    rewrite nth_vadd by lia.
+    rewrite (nth_in_window (sinc_filter ts col _ kern) 0 _ _ j Hw).
+    rewrite (nth_in_window (sinc_filter ts col _ (spectral_inversion u kern)) 0 _ _ j Hw).
+    rewrite <- nth_vadd.
+    + rewrite E. rewrite !nth_vscale. rewrite <- (nth_in_window col 0 _ _ j Hw). reflexivity.
+    + assert (s <= e) as Hse by lia. pose proof (ss_range_le s e ts Hse) as Hr.
+      rewrite !slice_length by lia. reflexivity.
+Qed.
+
+Theorem sinc_band_complementary_whole : forall ts col ep u lp0 lp1 c,
+  length lp0 = (2 * c + 1)%nat -> length lp1 = (2 * c + 1)%nat ->
+  sortedZ ts -> length col = length ts -> canonical ep -> Forall (fun t => mem t ep = true) ts ->
+  vadd (sinc_filter ts col ep (sinc_bandstop u lp0 lp1)) (sinc_filter ts col ep (sinc_bandpass u lp0 lp1)) = vscale u col.
+Proof.
+  intros ts col ep u lp0 lp1 c H0 H1 Hs Hl Hc Hcov. unfold sinc_bandpass.
+  apply sinc_complementary_whole with (c := c); try assumption.
+  rewrite sinc_bandstop_length by lia. exact H0.
+Qed.
